@@ -66,6 +66,7 @@ Record config := mkCfg {
   c_on_hp_change : list nat;
   c_on_phase1 : list nat;            (* Modifier.Tick(active, ModifierPhase1): the content's OnPhase1 listener *)
   c_on_phase2 : list nat;            (* Modifier.Tick(active, ModifierPhase2): the content's OnPhase2 listener *)
+  c_on_attack_start : list nat;      (* the content's AttackStart listener (run as the first target, primary = attacker) *)
   c_cycle_limit : Z;
   c_insert_budget : Z }.             (* harness content stops inserting after this many *)
 
@@ -276,9 +277,10 @@ Definition record_hit (s : sim) (def : Z) (total : float) : sim :=
   end.
 
 (* ---- listener slots ---- *)
-Inductive slot := LBattle | LActionEnd | LHitEnd | LDeath | LHP | LPhase1 | LPhase2.
+Inductive slot := LBattle | LActionEnd | LHitEnd | LDeath | LHP | LPhase1 | LPhase2 | LAttackStart.
 Definition slot_ix (sl : slot) : nat :=
-  match sl with LBattle => 0 | LActionEnd => 1 | LHitEnd => 2 | LDeath => 3 | LHP => 4 | LPhase1 => 5 | LPhase2 => 6 end%nat.
+  match sl with LBattle => 0 | LActionEnd => 1 | LHitEnd => 2 | LDeath => 3 | LHP => 4 | LPhase1 => 5 | LPhase2 => 6
+              | LAttackStart => 7 end%nat.
 Fixpoint set_nth_l (l : list (list nat)) (n : nat) (v : list nat) : list (list nat) :=
   match l, n with
   | [], _ => []
@@ -330,7 +332,8 @@ Section Scripts.
   (* Scripts run in one of two modes.  Body mode: the script of an action, ult or insert.
      Listener mode ([lm] = true): a script run from inside an event listener.  Legal use of the
      engine API, as the lifecycle protocol needs it: a listener never opens or closes an attack
-     bracket itself (it may deal additional, unbracketed damage and queue inserts).  An illegal
+     bracket itself (it may deal additional damage - unbracketed, or, while an attack is open, as
+     further hits of that attack - and queue inserts).  An illegal
      call in listener mode ends the model run with [None], like running out of fuel; every
      theorem is conditional on a normal result. *)
   Definition runner := sim -> Z -> Z -> script -> option sim.
@@ -412,14 +415,26 @@ Section Scripts.
   Definition exec_op (R : runner) (lm : bool) (s : sim) (self primary : Z) (o : sop) : option sim :=
     match o with
     | SAttack key targets qualified dmg =>
-        if lm && qualified then None else
         let tids := map (resolve self primary) targets in
         if (match tids with [] => true | _ => false end) || negb (is_alive s self) then Some s else
-        let s1 := match in_attack s with
-                  | None => if qualified then emit (set_attack s (Some (key, self))) [VAttackStart key self] else s
-                  | Some _ => s
-                  end in
-        do_hits R s1 self dmg tids
+        match in_attack s with
+        | Some _ => do_hits R s self dmg tids          (* inside an open attack: more hits of that attack *)
+        | None =>
+            if qualified then
+              if lm then None else                     (* a listener must not open an attack bracket *)
+              (* the manager is "in an attack" and remembers its key and attacker BEFORE AttackStart is
+                 emitted; the content's AttackStart listener runs (it may hit, also with qualified
+                 attacks, which join the open attack), then the event is logged *)
+              let '(sc, s1) := pop_slot (set_attack s (Some (key, self))) LAttackStart in
+              match (match sc with
+                     | Some i => R s1 (hd self tids) self (nth i (c_scripts cfg) [])
+                     | None => Some s1
+                     end) with
+              | None => None
+              | Some s2 => do_hits R (emit s2 [VAttackStart key self]) self dmg tids
+              end
+            else do_hits R s self dmg tids
+        end
     | SEndAttack => if lm then None else Some (end_attack s)
     | SSetHP t frac =>
         let id := resolve self primary t in
@@ -854,7 +869,7 @@ Section Scripts.
                          (@OAdd F (map (fun id => (id, Turn.lookup F spds id)) (cs ++ es))) in
     let s0 := mkSim us cs es 3 t1 [] 0 0 None (c_next cfg) (c_ults cfg)
                     [c_on_battle_start cfg; c_on_action_end cfg; c_on_hit_end cfg; c_on_death cfg; c_on_hp_change cfg;
-                     c_on_phase1 cfg; c_on_phase2 cfg]
+                     c_on_phase1 cfg; c_on_phase2 cfg; c_on_attack_start cfg]
                     (c_insert_budget cfg) (mkRes 0 0 [0%float] [0%float])
                     [VInitialize; VCharactersAdded cs; VEnemiesAdded es; VTurnTargetsAdded (map u_id (order t1))] in
     match run_slot fuel s0 LBattle 0 0 with
